@@ -456,7 +456,14 @@ func (t *fnTrans) lockOp(m Val, acquire bool, key string, pos token.Pos) {
 	// ghost lock mode of this mutex of this object: 0 not held by this function, 1 read-locked, 2 write-locked
 	// (spec builtins holds(x, "field") / holdsw(x, "field"))
 	lm := t.lockModeVar(stName, ls.Field)
+	if t.lockSites == nil {
+		t.lockSites = map[string][2]string{}
+	}
+	t.lockSites[lm.Name+"|"+self] = [2]string{lm.Name, self}
 	if acquire {
+		// sync mutexes are not reentrant: a function that acquires a mutex does not hold it already (the opposite - a second Lock
+		// by the same goroutine - blocks for ever and is excluded here; callees that lock say `requires !holds(..)` where it matters)
+		t.assume(fmt.Sprintf("(= (select %s %s) 0)", t.get(t.cur, lm.Name), self))
 		mode := "2"
 		if strings.HasSuffix(key, ".RLock") {
 			mode = "1"
